@@ -65,7 +65,9 @@ func (r *pipeRecorder) sink(e bcl.VerifEvent) {
 	} else {
 		r.roles[id] = role
 	}
-	if role == "R" || role == "L" || role == "P" || role == "C" {
+	if e.Kind == "need" {
+		// the hook point before the lexer's receive: a place to wait (jitter below), not an event of the logs
+	} else if role == "R" || role == "L" || role == "P" || role == "C" {
 		r.logs[role] = append(r.logs[role], pev{e.Kind, e.A, e.B, q})
 	} else if q != 0 {
 		// an access from another goroutine (none is expected during ParseFile)
